@@ -33,16 +33,17 @@ LEVEL_TEXT = ("Every sequence of per-try outcomes over {ok, request lost, "
               "what it believes it did.")
 LEVEL_NOTE = ("Trusted: the virtual network (datagram semantics, recv "
               "truncation, select/time model) and the echo machine. Timing "
-              "verdicts are on the virtual clock only. 16-bit sequence wrap "
-              "within a burst is outside the explored space.")
+              "verdicts are on the virtual clock only.")
 RULE = ("one case = one connection with 1-4 consecutive bursts and a fault "
         "schedule (or one block of enumerated schedules); non-trivial = at "
         "least one datagram of the case was lost, delayed beyond a timeout, "
         "duplicated or answered with an error code; distinct by case")
 ASSUMPTIONS = [
-    "network round trip is non-zero (2 ms virtual) and bursts are far shorter "
-    "than 65536 commands, so sequence numbers do not wrap within several "
-    "timeouts (the case the source marks XXX)",
+    "network round trip is non-zero (2 ms virtual); a reply delayed so long "
+    "that its sequence number has been re-used by a later command (the case "
+    "the source marks XXX) is outside the explored space; wrapping of the "
+    "16-bit counter while earlier commands are still unanswered IS explored "
+    "(class seqwrap: > 65536 commands on one connection)",
     "retransmission spacing is checked with a slack of 1 ms against timeouts "
     ">= 50 ms (the deadline is computed just before the datagram is sent)",
     "the machine replies to every request it receives (the fault plan "
@@ -51,7 +52,8 @@ ASSUMPTIONS = [
 FLOORS = {"burst_checked": 1500, "callback_identity": 3000,
           "retransmission_gap": 500, "timeout_outcome": 100,
           "fatal_outcome": 100, "window_bound": 2000,
-          "late_reply_ignored": 30}
+          "late_reply_ignored": 30, "seq_wrapped_with_outstanding": 1,
+          "SCPConnection.send_scp_burst:seq_skipped": 1}
 ANCHORS = [("rig.machine_control.scp_connection",
             "SCPConnection.send_scp_burst",
             {"retransmit": "self.sock.send(outstanding.bytestring)",
@@ -96,7 +98,7 @@ def plan(tier):
     _blocks[tier] = enum_blocks(tier)
     n = 8000 if tier == "quick" else 400000
     return [("enum", len(_blocks[tier])), ("random", n), ("multi", n),
-            ("big", n // 6)]
+            ("big", n // 6), ("seqwrap", 2 if tier == "quick" else 24)]
 
 
 def rand_outcome(rng, p_fault):
@@ -119,6 +121,16 @@ def gen(cls, idx, rng, tier):
             _blocks[tier] = enum_blocks(tier)
         n, T, W, start, count = _blocks[tier][idx]
         return dict(kind="enum", n=n, T=T, W=W, start=start, count=count)
+    if cls == "seqwrap":
+        # one connection sends more than 2**16 commands while a few early
+        # commands (adjacent sequence numbers) are still unanswered
+        first = rng.choice([0, 1, 7, 300])
+        return dict(kind="seqwrap", T=rng.choice([2, 3]), timeout=0.05,
+                    W=rng.choice([3, 4, 6]),
+                    n=65536 + first + rng.randint(4, 40),
+                    stuck=[first + i for i in range(rng.choice([2, 2, 3]))
+                           ][:2 if idx % 2 == 0 else 3],
+                    stuck_extra=2000.0)
     n_bursts = 1 if cls == "random" else rng.randint(2, 4)
     T = rng.randint(1, 5)
     timeout = rng.choice([0.05, 0.1, 0.5])
@@ -252,6 +264,8 @@ def judge_burst(ctx, r, sc_mod, earlier_ids):
     idset = set(ids)
     sends = {c: [] for c in ids}        # times of transmissions
     seq_of = {}
+    open_cmds = set()                   # first-sent and not yet OK-answered
+    open_seq = {}                       # their sequence numbers
     ok_recv = {}                        # cid -> time of first OK reply recv
     callbacks = {}
     fatal_recv_t = None
@@ -282,16 +296,17 @@ def judge_burst(ctx, r, sc_mod, earlier_ids):
             else:
                 # window: commands first-sent and not yet OK-answered
                 ctx.hit("window_bound")
-                open_ = [c for c in ids if sends[c] and c not in ok_recv]
-                check(len(open_) + 1 <= W, "window-exceeded",
+                check(len(open_cmds) + 1 <= W, "window-exceeded",
                       "command %d first sent while %d commands are "
-                      "unanswered (window %d)" % (cid, len(open_), W),
+                      "unanswered (window %d)" % (cid, len(open_cmds), W),
                       **where)
-                clash = [c for c in open_ if seq_of[c] == req["seq"]]
-                check(not clash, "seq-reused-while-outstanding",
+                check(req["seq"] not in open_seq,
+                      "seq-reused-while-outstanding",
                       "commands %r and %d share sequence number %d" %
-                      (clash, cid, req["seq"]), **where)
+                      (open_seq.get(req["seq"]), cid, req["seq"]), **where)
                 seq_of[cid] = req["seq"]
+                open_cmds.add(cid)
+                open_seq[req["seq"]] = cid
             sends[cid].append(t)
             check(len(sends[cid]) <= T, "too-many-tries",
                   "command %d transmitted %d times, n_tries=%d" %
@@ -306,6 +321,10 @@ def judge_burst(ctx, r, sc_mod, earlier_ids):
                 cid, = struct.unpack_from("<I", rep["body"])
                 if cid in idset:
                     ok_recv.setdefault(cid, t)
+                    if cid in open_cmds:
+                        open_cmds.discard(cid)
+                        if open_seq.get(seq_of.get(cid)) == cid:
+                            del open_seq[seq_of[cid]]
                 elif cid in earlier_ids:
                     ctx.hit("late_reply_ignored")
             elif rep["cmd"] not in (0x82, 0x8d):
@@ -399,6 +418,26 @@ def run(case, ctx):
         ctx.count("schedules_enumerated", case["count"])
         ctx.note(dict(commands=n, tries=T, window=W, first=case["start"],
                       schedules=case["count"]))
+    elif case["kind"] == "seqwrap":
+        cmds = []
+        for i in range(case["n"]):
+            if i in case["stuck"]:
+                cmds.append((case["stuck_extra"], ["lost"]))
+            else:
+                cmds.append((0.0, []))
+        results, sc = run_connection(case["T"], case["timeout"],
+                                     [dict(W=case["W"], cmds=cmds)])
+        r = results[0]
+        judge_burst(ctx, r, sc, set())
+        seqs_seen = {simnet.parse_scp(e[3])["seq"] for e in r["events"]
+                     if e[0] == "send"}
+        check(r["outcome"][0] == "return", "seqwrap-outcome",
+              repr(r["outcome"][:2]))
+        ctx.hit("seq_wrapped_with_outstanding")
+        ctx.count("events", 0)
+        nt = True
+        ctx.note(dict(commands=case["n"], window=case["W"],
+                      stuck=case["stuck"], distinct_seqs=len(seqs_seen)))
     else:
         results, sc = run_connection(case["T"], case["timeout"],
                                      case["bursts"], case["buffer_size"],
